@@ -52,6 +52,49 @@ struct Triple  // conversion operator that is not a bit copy
 };
 static_assert(sizeof(WrapE) == sizeof(EnumI) && sizeof(Twice) == sizeof(int) && sizeof(Triple) == sizeof(int));
 
+// sources whose conversion to a trivially copyable stored type depends on the value category: an rvalue source item
+// must be converted as an rvalue (that is what "moved from" means for it), an lvalue source item as an lvalue
+struct Lend
+{
+    int v = 0;
+    int as_lvalue = 0, as_rvalue = 0;
+    Lend() = default;
+    explicit Lend(int x) : v(x) {}
+    operator int() const&
+    {
+        ++const_cast<Lend*>(this)->as_lvalue;
+        return v;
+    }
+    operator int() &&
+    {
+        ++as_rvalue;
+        const int r = v;
+        v = -1;
+        return r;
+    }
+};
+struct Giver
+{
+    int v = 0;
+    mutable int copied_from = 0;
+    int moved_from = 0;
+    Giver() = default;
+    explicit Giver(int x) : v(x) {}
+};
+struct Taker  // trivially copyable, constructible from Giver by copy or by move
+{
+    int v;
+    Taker(const Giver& g) : v(g.v) { ++g.copied_from; }
+    Taker(Giver&& g) : v(g.v)
+    {
+        ++g.moved_from;
+        g.v = -1;
+    }
+};
+static_assert(std::is_trivially_copyable_v<Taker>);
+template <class S>
+inline constexpr bool IS_CATEGORY_SOURCE = std::is_same_v<S, Lend> || std::is_same_v<S, Giver>;
+
 // key(): a comparable summary of a stored / expected value
 template <class T>
 long long key(const T& x)
@@ -62,7 +105,7 @@ long long key(const T& x)
         std::memcpy(&raw, &x, 1);
         return raw;  // an invalid representation (not 0/1) shows up as a mismatch
     }
-    else if constexpr (std::is_same_v<T, Twice>)
+    else if constexpr (std::is_same_v<T, Twice> || std::is_same_v<T, Taker>)
         return x.v;
     else if constexpr (std::is_same_v<T, EnumI>)
         return static_cast<long long>(x);
@@ -98,6 +141,10 @@ S make_source(int i, int salt)
         return reinterpret_cast<S>(static_cast<uintptr_t>(v) * 8);
     else if constexpr (IsTracked<S>::value)
         return S(v);
+    else if constexpr (std::is_same_v<S, Lend>)
+        return Lend(v);
+    else if constexpr (std::is_same_v<S, Giver>)
+        return Giver(v);
     else if constexpr (std::is_same_v<S, WrapE>)
         return WrapE{v};
     else if constexpr (std::is_same_v<S, Triple>)
@@ -126,6 +173,8 @@ long long expected_key(const S& s)
         return s ? *s : -1;
     else if constexpr (IsTracked<S>::value)
         return s.value("read of a source object");
+    else if constexpr (IS_CATEGORY_SOURCE<S>)
+        return s.v;
     else
     {
         const T t = static_cast<T>(s);
@@ -140,6 +189,10 @@ long long source_key(const S& s)
         return reinterpret_cast<long long>(s);
     else if constexpr (std::is_same_v<S, WrapE> || std::is_same_v<S, Triple>)
         return s.v;
+    else if constexpr (std::is_same_v<S, Lend>)
+        return (static_cast<long long>(s.v) + 1) * 10000 + s.as_lvalue * 100 + s.as_rvalue;
+    else if constexpr (std::is_same_v<S, Giver>)
+        return (static_cast<long long>(s.v) + 1) * 10000 + s.copied_from * 100 + s.moved_from;
     else
         return key(s);
 }
@@ -247,7 +300,7 @@ void cell(const char* pair_name, int n)
         return;  // a VaryingSize parameter takes a range (its length is the size)
     else if constexpr (!COPYABLE_S && !RVALUE_FORM)
         return;  // move-only sources need an rvalue form
-    else if constexpr (GENERATED && (!COPYABLE_S || IsTracked<S>::value))
+    else if constexpr (GENERATED && (!COPYABLE_S || IsTracked<S>::value || IS_CATEGORY_SOURCE<S>))
         return;
     else if constexpr ((FORM == F_ARRAY_LVALUE || FORM == F_ARRAY_RVALUE || FORM == F_CARRAY_LVALUE) && !std::is_default_constructible_v<S>)
         return;  // fixed-extent containers are filled by assignment below
@@ -386,7 +439,13 @@ void cell(const char* pair_name, int n)
             // ---- state of the source
             if (!GENERATED)
             {
-                if (!RVALUE_FORM)
+                if (!RVALUE_FORM && IS_CATEGORY_SOURCE<S>)
+                {
+                    for (size_t i = 0; i < src_after.size(); ++i)
+                        if (src_after[i] != src_before[i] + 100)
+                            violation("C15", "lvalue_source_modified", fmt("%s: lvalue source item %zu: value / lvalue conversions / rvalue conversions changed from %lld to %lld (expected exactly one lvalue conversion)", name.c_str(), i, src_before[i], src_after[i]));
+                }
+                else if (!RVALUE_FORM)
                 {
                     if (src_after != src_before) violation("C15", "lvalue_source_modified", fmt("%s: source is %s after the call, was %s", name.c_str(), jarr_num(src_after).c_str(), jarr_num(src_before).c_str()));
                 }
@@ -397,6 +456,12 @@ void cell(const char* pair_name, int n)
                         if (k != MOVED) violation("C15", "rvalue_source_not_moved", fmt("%s: a source item still holds %lld", name.c_str(), k));
                     if (moves_mid != un || copies_mid != 0)
                         violation("C15", "move_count", fmt("%s: %" PRIu64 " move and %" PRIu64 " copy constructions for %d items", name.c_str(), moves_mid, copies_mid, n));
+                }
+                else if constexpr (IS_CATEGORY_SOURCE<S>)
+                {
+                    // every item converted exactly once, as an rvalue: key == (moved-from value -1 + 1) * 10000 + 0 * 100 + 1
+                    for (auto k : src_after)
+                        if (k != 1) violation("C15", "rvalue_source_not_moved", fmt("%s: a source item was converted %lld times as lvalue and %lld times as rvalue (value afterwards %lld)", name.c_str(), (k / 100) % 100, k % 100, k / 10000 - 1));
                 }
                 else if constexpr (std::is_same_v<S, std::unique_ptr<int>>)
                 {
@@ -495,6 +560,10 @@ int main(int argc, char** argv)
     pair<std::string, const char*>("std::string <- const char*");
     pair<std::string, std::string>("std::string <- std::string");
     pair<int*, int*>("int* <- int*");
+#elif VF_GROUP == 5
+    pair<int, Lend>("int <- class with ref-qualified conversion operators");
+    pair<Taker, Giver>("trivially copyable class <- class (copy or move converting constructor)");
+    pair<long long, Lend>("long long <- class with ref-qualified conversion operators");
 #elif VF_GROUP == 4
     pair<Tracked<8>, Tracked<8>>("Tracked <- Tracked");
     pair<std::unique_ptr<int>, std::unique_ptr<int>>("unique_ptr <- unique_ptr");
